@@ -335,34 +335,56 @@ fn compare_result(op: &Op, res: &Res, exp: &Exp) -> Result<(), String> {
 }
 
 /// All key-based queries for key `k` against a linear scan of the model.
-fn check_queries(o: &Object, m: &M, k: &str, by_key_type: bool) -> Result<(), String> {
-    let pos = model::positions(m, k);
+/// Consume an iterator in one of eight ways (`collect`, `next` + `nth`, `step_by`, `next` + `skip`,
+/// `last`, `nth` on a fresh iterator, two `next`s + `step_by`, `fold`). The same program applied to the
+/// positions of a linear scan gives the expectation, so an iterator whose specialised `nth`, `last`,
+/// `size_hint`... disagree with its `next` is seen.
+fn consume<I: Iterator>(mut it: I, prog: usize) -> Vec<I::Item> {
+    let mut v = vec![];
+    match prog % 8 {
+        0 => v.extend(it),
+        1 => { if let Some(a) = it.next() { v.push(a); } if let Some(b) = it.nth(1) { v.push(b); } v.extend(it); }
+        2 => v.extend(it.step_by(2)),
+        3 => { if let Some(a) = it.next() { v.push(a); } v.extend(it.skip(1)); }
+        4 => v.extend(it.last()),
+        5 => { if let Some(a) = it.nth(2) { v.push(a); } v.extend(it); }
+        6 => { if let Some(a) = it.next() { v.push(a); } if let Some(a) = it.next() { v.push(a); } v.extend(it.step_by(3)); }
+        _ => { v = it.fold(vec![], |mut acc, x| { acc.push(x); acc }); }
+    }
+    v
+}
+
+fn check_queries(o: &Object, m: &M, k: &str, by_key_type: bool, prog: usize) -> Result<(), String> {
+    let all = model::positions(m, k);
+    // the unique lookups and the scalar queries see every position; the iterators are consumed by program `prog`
+    let pos: Vec<usize> = consume(all.iter().copied(), prog);
+    let how = ["collect()", "next(), nth(1), rest", "step_by(2)", "next(), skip(1)", "last()", "nth(2), rest", "next(), next(), step_by(3)", "fold"][prog % 8];
     macro_rules! q {
         ($key:expr) => {{
             let key = $key;
-            if o.contains_key(key) != !pos.is_empty() { return Err(format!("contains_key({:?}) = {} but a linear scan finds {} entries", k, o.contains_key(key), pos.len())); }
-            if o.index_of(key) != pos.first().copied() { return Err(format!("index_of({:?}) = {:?} but the first position is {:?}", k, o.index_of(key), pos.first())); }
-            if o.redundant_index_of(key) != pos.get(1).copied() { return Err(format!("redundant_index_of({:?}) = {:?} but the second position is {:?}", k, o.redundant_index_of(key), pos.get(1))); }
-            let idx: Vec<usize> = o.indexes_of(key).collect();
-            if idx != pos { return Err(format!("indexes_of({:?}) = {:?} but a linear scan gives {:?}", k, idx, pos)); }
-            let vals: Vec<&Value> = o.get(key).collect();
-            if vals.len() != pos.len() || !vals.iter().zip(&pos).all(|(v, p)| same_value(v, &m[*p].1)) { return Err(format!("get({:?}) yields {} values that differ from the entries at {:?}", k, vals.len(), pos)); }
-            let ents: Vec<&Entry> = o.get_entries(key).collect();
-            if ents.len() != pos.len() || !ents.iter().zip(&pos).all(|(e, p)| e.key.as_str() == k && same_value(&e.value, &m[*p].1)) { return Err(format!("get_entries({:?}) differs from the entries at {:?}", k, pos)); }
-            let wi: Vec<(usize, &Value)> = o.get_with_index(key).collect();
-            if wi.len() != pos.len() || !wi.iter().zip(&pos).all(|((i, v), p)| i == p && same_value(v, &m[*p].1)) { return Err(format!("get_with_index({:?}) differs from the entries at {:?}", k, pos)); }
-            let ewi: Vec<(usize, &Entry)> = o.get_entries_with_index(key).collect();
-            if ewi.len() != pos.len() || !ewi.iter().zip(&pos).all(|((i, e), p)| i == p && e.key.as_str() == k && same_value(&e.value, &m[*p].1)) { return Err(format!("get_entries_with_index({:?}) differs from the entries at {:?}", k, pos)); }
-            match (o.get_unique(key), pos.len()) {
+            if o.contains_key(key) != !all.is_empty() { return Err(format!("contains_key({:?}) = {} but a linear scan finds {} entries", k, o.contains_key(key), all.len())); }
+            if o.index_of(key) != all.first().copied() { return Err(format!("index_of({:?}) = {:?} but the first position is {:?}", k, o.index_of(key), all.first())); }
+            if o.redundant_index_of(key) != all.get(1).copied() { return Err(format!("redundant_index_of({:?}) = {:?} but the second position is {:?}", k, o.redundant_index_of(key), all.get(1))); }
+            let idx: Vec<usize> = consume(o.indexes_of(key), prog);
+            if idx != pos { return Err(format!("indexes_of({:?}) consumed by {} = {:?} but a linear scan consumed the same way gives {:?}", k, how, idx, pos)); }
+            let vals: Vec<&Value> = consume(o.get(key), prog);
+            if vals.len() != pos.len() || !vals.iter().zip(&pos).all(|(v, p)| same_value(v, &m[*p].1)) { return Err(format!("get({:?}) consumed by {} yields {} values that differ from the entries at {:?}", k, how, vals.len(), pos)); }
+            let ents: Vec<&Entry> = consume(o.get_entries(key), prog);
+            if ents.len() != pos.len() || !ents.iter().zip(&pos).all(|(e, p)| e.key.as_str() == k && same_value(&e.value, &m[*p].1)) { return Err(format!("get_entries({:?}) consumed by {} differs from the entries at {:?}", k, how, pos)); }
+            let wi: Vec<(usize, &Value)> = consume(o.get_with_index(key), prog);
+            if wi.len() != pos.len() || !wi.iter().zip(&pos).all(|((i, v), p)| i == p && same_value(v, &m[*p].1)) { return Err(format!("get_with_index({:?}) consumed by {} differs from the entries at {:?}", k, how, pos)); }
+            let ewi: Vec<(usize, &Entry)> = consume(o.get_entries_with_index(key), prog);
+            if ewi.len() != pos.len() || !ewi.iter().zip(&pos).all(|((i, e), p)| i == p && e.key.as_str() == k && same_value(&e.value, &m[*p].1)) { return Err(format!("get_entries_with_index({:?}) consumed by {} differs from the entries at {:?}", k, how, pos)); }
+            match (o.get_unique(key), all.len()) {
                 (Ok(None), 0) => {}
-                (Ok(Some(v)), 1) if same_value(v, &m[pos[0]].1) => {}
-                (Err(Duplicate(a, b)), n) if n >= 2 && a.key.as_str() == k && b.key.as_str() == k && same_value(&a.value, &m[pos[0]].1) && same_value(&b.value, &m[pos[1]].1) => {}
+                (Ok(Some(v)), 1) if same_value(v, &m[all[0]].1) => {}
+                (Err(Duplicate(a, b)), n) if n >= 2 && a.key.as_str() == k && b.key.as_str() == k && same_value(&a.value, &m[all[0]].1) && same_value(&b.value, &m[all[1]].1) => {}
                 (r, n) => return Err(format!("get_unique({:?}) = {:?} but a linear scan finds {} entries", k, r.map(|v| v.map(|v| v.to_string())).map_err(|d| (d.0.value.to_string(), d.1.value.to_string())), n)),
             }
-            match (o.get_unique_entry(key), pos.len()) {
+            match (o.get_unique_entry(key), all.len()) {
                 (Ok(None), 0) => {}
-                (Ok(Some(e)), 1) if e.key.as_str() == k && same_value(&e.value, &m[pos[0]].1) => {}
-                (Err(Duplicate(a, b)), n) if n >= 2 && a.key.as_str() == k && b.key.as_str() == k && same_value(&a.value, &m[pos[0]].1) && same_value(&b.value, &m[pos[1]].1) => {}
+                (Ok(Some(e)), 1) if e.key.as_str() == k && same_value(&e.value, &m[all[0]].1) => {}
+                (Err(Duplicate(a, b)), n) if n >= 2 && a.key.as_str() == k && b.key.as_str() == k && same_value(&a.value, &m[all[0]].1) && same_value(&b.value, &m[all[1]].1) => {}
                 (_, n) => return Err(format!("get_unique_entry({:?}) disagrees with a linear scan ({} entries)", k, n)),
             }
         }};
@@ -374,36 +396,38 @@ fn check_queries(o: &Object, m: &M, k: &str, by_key_type: bool) -> Result<(), St
 /// The mapped family of key queries (objects that came out of the parser, code map still valid):
 /// each must return, for the i-th occurrence of the key, exactly what `iter_mapped()` yields at
 /// that position — entry, index and fragment offsets.
-fn check_mapped_queries(o: &Object, map: &CodeMap, m: &M, k: &str) -> Result<(), String> {
-    let pos = model::positions(m, k);
+fn check_mapped_queries(o: &Object, map: &CodeMap, m: &M, k: &str, prog: usize) -> Result<(), String> {
+    let all = model::positions(m, k);
+    let pos: Vec<usize> = consume(all.iter().copied(), prog);
     // linear scan: (offset, key offset, value offset) per position
     let scan: Vec<(usize, usize, usize)> = o.iter_mapped(map, 0).map(|e| (e.offset, e.value.key.offset, e.value.value.offset)).collect();
     if scan.len() != m.len() { return Err(format!("iter_mapped yields {} entries but the object has {}", scan.len(), m.len())); }
     let want: Vec<(usize, (usize, usize, usize))> = pos.iter().map(|p| (*p, scan[*p])).collect();
+    let want_all: Vec<(usize, (usize, usize, usize))> = all.iter().map(|p| (*p, scan[*p])).collect();
     let ok_entry = |p: usize, key: &str, v: &Value| key == k && same_value(v, &m[p].1);
-    let a: Vec<_> = o.get_mapped_entries(map, 0, k).collect();
+    let a: Vec<_> = consume(o.get_mapped_entries(map, 0, k), prog);
     if a.len() != want.len() || !a.iter().zip(&want).all(|(e, (p, offs))| (e.offset, e.value.key.offset, e.value.value.offset) == *offs && ok_entry(*p, e.value.key.value.as_str(), e.value.value.value)) {
         return Err(format!("get_mapped_entries({:?}) differs from what iter_mapped yields at positions {:?}", k, pos));
     }
-    let b: Vec<_> = o.get_mapped_entries_with_index(map, 0, k).collect();
+    let b: Vec<_> = consume(o.get_mapped_entries_with_index(map, 0, k), prog);
     if b.len() != want.len() || !b.iter().zip(&want).all(|((i, e), (p, offs))| i == p && (e.offset, e.value.key.offset, e.value.value.offset) == *offs && ok_entry(*p, e.value.key.value.as_str(), e.value.value.value)) {
         return Err(format!("get_mapped_entries_with_index({:?}) differs from what iter_mapped yields at positions {:?}", k, pos));
     }
-    let c: Vec<_> = o.get_mapped(map, 0, k).collect();
+    let c: Vec<_> = consume(o.get_mapped(map, 0, k), prog);
     if c.len() != want.len() || !c.iter().zip(&want).all(|(v, (p, offs))| v.offset == offs.2 && same_value(v.value, &m[*p].1)) {
         return Err(format!("get_mapped({:?}) differs from the values iter_mapped yields at positions {:?}", k, pos));
     }
-    let d: Vec<_> = o.get_mapped_with_index(map, 0, k).collect();
+    let d: Vec<_> = consume(o.get_mapped_with_index(map, 0, k), prog);
     if d.len() != want.len() || !d.iter().zip(&want).all(|((i, v), (p, offs))| i == p && v.offset == offs.2 && same_value(v.value, &m[*p].1)) {
         return Err(format!("get_mapped_with_index({:?}) differs from the values iter_mapped yields at positions {:?}", k, pos));
     }
     let shape = |n: usize| if n == 0 { "none" } else if n == 1 { "one" } else { "duplicate" };
-    let u1 = match o.get_unique_mapped_entry(map, 0, k) { Ok(None) => "none", Ok(Some(e)) => if e.offset == want[0].1 .0 { "one" } else { "wrong" }, Err(Duplicate(x, y)) => if want.len() >= 2 && x.offset == want[0].1 .0 && y.offset == want[1].1 .0 { "duplicate" } else { "wrong" } };
-    let u2 = match o.get_unique_mapped_entry_with_index(map, 0, k) { Ok(None) => "none", Ok(Some((i, e))) => if i == want[0].0 && e.offset == want[0].1 .0 { "one" } else { "wrong" }, Err(Duplicate((i, x), (j, y))) => if want.len() >= 2 && i == want[0].0 && j == want[1].0 && x.offset == want[0].1 .0 && y.offset == want[1].1 .0 { "duplicate" } else { "wrong" } };
-    let u3 = match o.get_unique_mapped(map, 0, k) { Ok(None) => "none", Ok(Some(v)) => if v.offset == want[0].1 .2 { "one" } else { "wrong" }, Err(Duplicate(x, y)) => if want.len() >= 2 && x.offset == want[0].1 .2 && y.offset == want[1].1 .2 { "duplicate" } else { "wrong" } };
-    let u4 = match o.get_unique_mapped_with_index(map, 0, k) { Ok(None) => "none", Ok(Some((i, v))) => if i == want[0].0 && v.offset == want[0].1 .2 { "one" } else { "wrong" }, Err(Duplicate((i, x), (j, y))) => if want.len() >= 2 && i == want[0].0 && j == want[1].0 && x.offset == want[0].1 .2 && y.offset == want[1].1 .2 { "duplicate" } else { "wrong" } };
+    let u1 = match o.get_unique_mapped_entry(map, 0, k) { Ok(None) => "none", Ok(Some(e)) => if e.offset == want_all[0].1 .0 { "one" } else { "wrong" }, Err(Duplicate(x, y)) => if want_all.len() >= 2 && x.offset == want_all[0].1 .0 && y.offset == want_all[1].1 .0 { "duplicate" } else { "wrong" } };
+    let u2 = match o.get_unique_mapped_entry_with_index(map, 0, k) { Ok(None) => "none", Ok(Some((i, e))) => if i == want_all[0].0 && e.offset == want_all[0].1 .0 { "one" } else { "wrong" }, Err(Duplicate((i, x), (j, y))) => if want_all.len() >= 2 && i == want_all[0].0 && j == want_all[1].0 && x.offset == want_all[0].1 .0 && y.offset == want_all[1].1 .0 { "duplicate" } else { "wrong" } };
+    let u3 = match o.get_unique_mapped(map, 0, k) { Ok(None) => "none", Ok(Some(v)) => if v.offset == want_all[0].1 .2 { "one" } else { "wrong" }, Err(Duplicate(x, y)) => if want_all.len() >= 2 && x.offset == want_all[0].1 .2 && y.offset == want_all[1].1 .2 { "duplicate" } else { "wrong" } };
+    let u4 = match o.get_unique_mapped_with_index(map, 0, k) { Ok(None) => "none", Ok(Some((i, v))) => if i == want_all[0].0 && v.offset == want_all[0].1 .2 { "one" } else { "wrong" }, Err(Duplicate((i, x), (j, y))) => if want_all.len() >= 2 && i == want_all[0].0 && j == want_all[1].0 && x.offset == want_all[0].1 .2 && y.offset == want_all[1].1 .2 { "duplicate" } else { "wrong" } };
     for (name, got) in [("get_unique_mapped_entry", u1), ("get_unique_mapped_entry_with_index", u2), ("get_unique_mapped", u3), ("get_unique_mapped_with_index", u4)] {
-        if got != shape(want.len()) { return Err(format!("{}({:?}) answers '{}' but a linear scan finds {} entries at {:?}", name, k, got, want.len(), pos)); }
+        if got != shape(want_all.len()) { return Err(format!("{}({:?}) answers '{}' but a linear scan finds {} entries at {:?}", name, k, got, want_all.len(), all)); }
     }
     Ok(())
 }
@@ -551,9 +575,9 @@ pub fn run_c06(sc: &HistSc, st: &mut Stats) -> HistOutcome {
         for &q in &touched {
             if full {
                 for (i, k) in uni.iter().enumerate() {
-                    if let Err(m) = check_queries(&regs[q], &ms[q], k, (i + step) % 5 == 0) { return HistOutcome { violation: viol("c06.query", step, op, format!("register {}: {}", q, m)), outcome: d.finish(), nontrivial }; }
+                    if let Err(m) = check_queries(&regs[q], &ms[q], k, (i + step) % 5 == 0, i + 3 * step) { return HistOutcome { violation: viol("c06.query", step, op, format!("register {}: {}", q, m)), outcome: d.finish(), nontrivial }; }
                     if let Some(map) = &maps[q] {
-                        if let Err(m) = check_mapped_queries(&regs[q], map, &ms[q], k) { return HistOutcome { violation: viol("c06.query", step, op, format!("register {}: {}", q, m)), outcome: d.finish(), nontrivial }; }
+                        if let Err(m) = check_mapped_queries(&regs[q], map, &ms[q], k, i + 5 * step + 1) { return HistOutcome { violation: viol("c06.query", step, op, format!("register {}: {}", q, m)), outcome: d.finish(), nontrivial }; }
                         st.add("mapped_queries_checked", 8);
                     }
                 }
@@ -565,7 +589,7 @@ pub fn run_c06(sc: &HistSc, st: &mut Stats) -> HistOutcome {
                 if let Some(e) = ms[q].first() { ks.push(&e.0); }
                 if let Some(e) = ms[q].last() { ks.push(&e.0); }
                 for k in &ks {
-                    if let Err(m) = check_queries(&regs[q], &ms[q], k, false) { return HistOutcome { violation: viol("c06.query", step, op, format!("register {}: {}", q, m)), outcome: d.finish(), nontrivial }; }
+                    if let Err(m) = check_queries(&regs[q], &ms[q], k, false, step + k.len()) { return HistOutcome { violation: viol("c06.query", step, op, format!("register {}: {}", q, m)), outcome: d.finish(), nontrivial }; }
                 }
                 st.add("queries_checked", 10 * ks.len() as u64);
             }
